@@ -166,6 +166,57 @@ func s9OneMeasurement(p *Prog, o *obls) {
 					bad = append(bad, fmt.Sprintf("%s is incremented at %s on a match and the search goes on", describeAddr(p, st.Addr), p.instrPos(st)))
 				}
 			})
+			// S9 (what is measured): a duration obtained with time.Time.Sub and stored into the statistics under such a
+			// match is the distance to the history entry that matched — the value the reply echoes — and not to something
+			// else kept beside it: the formula is (arrival − delay) − time of the echoed timestamp.
+			rtts := 0
+			var badRtt []string
+			instrsOf(fn, func(in ssa.Instruction) {
+				st, ok := in.(*ssa.Store)
+				if !ok || !throughStatsStruct(st.Addr, ss.pkgPath) {
+					return
+				}
+				call, ok := st.Val.(*ssa.Call)
+				if !ok || call.Call.StaticCallee() == nil || call.Call.StaticCallee().String() != "(time.Time).Sub" {
+					return
+				}
+				for _, f := range dominatingFactsInstr(st) {
+					b2, ok := normFact(f).cond.(*ssa.BinOp)
+					if !ok || b2.Op != token.EQL && b2.Op != token.NEQ {
+						continue
+					}
+					matched := map[string]bool{}
+					s9HistoryLeaves(p, b2.X, "", matched, map[ssa.Value]bool{})
+					s9HistoryLeaves(p, b2.Y, "", matched, map[ssa.Value]bool{})
+					if len(matched) == 0 {
+						continue
+					}
+					used := map[string]bool{}
+					for _, a := range call.Call.Args {
+						s9HistoryLeaves(p, a, "", used, map[ssa.Value]bool{})
+					}
+					rtts++
+					hit := false
+					for k := range used {
+						if matched[k] {
+							hit = true
+						}
+					}
+					if !hit {
+						badRtt = append(badRtt, fmt.Sprintf("%s is set at %s to a distance that is not taken from the history entry that matched the reply (matched: %s; measured from: %s)", describeAddr(p, st.Addr), p.instrPos(st), strings.Join(sortedKeys(matched), ", "), strings.Join(sortedKeys(used), ", ")))
+					}
+					break
+				}
+			})
+			if rtts > 0 {
+				k2 := funcKey(fn) + ":measured-from-match"
+				if len(badRtt) > 0 {
+					sort.Strings(badRtt)
+					o.bad("S9", k2, strings.Fields(strings.SplitN(badRtt[0], " at ", 2)[1])[0], strings.Join(dedupe(badRtt), "; ")+": the round-trip time is (arrival − delay) − the time the echoed timestamp names; measured from anything else it carries the skew between the two")
+				} else {
+					o.ok("S9", k2, p.Pos(fn.Pos()), fmt.Sprintf("%d duration(s) stored under a history match, each measured from the matched entry", rtts))
+				}
+			}
 			if sites == 0 {
 				continue
 			}
@@ -180,4 +231,85 @@ func s9OneMeasurement(p *Prog, o *obls) {
 		}
 	}
 	o.ok("S9", "inspected", "-", fmt.Sprintf("%d recording function(s) with a search loop that books a measurement", n))
+}
+
+// s9HistoryLeaves collects, field-sensitively, the elements of the recorder's histories a value is computed from:
+// "history[index].path". It follows arithmetic, conversions, calls' arguments, struct field selection and local copies.
+func s9HistoryLeaves(p *Prog, v ssa.Value, path string, out map[string]bool, seen map[ssa.Value]bool) {
+	if v == nil || len(seen) > 400 {
+		return
+	}
+	if path == "" {
+		if seen[v] {
+			return
+		}
+		seen[v] = true
+	}
+	histElem := func(a ssa.Value) (string, bool) {
+		ia, ok := a.(*ssa.IndexAddr)
+		if !ok {
+			return "", false
+		}
+		hl, ok := p.origin(ia.X).(*ssa.UnOp)
+		if !ok || hl.Op != token.MUL {
+			return "", false
+		}
+		fa, ok := hl.X.(*ssa.FieldAddr)
+		if !ok || !statsStateTypes[typeKey(fa.X.Type())] {
+			return "", false
+		}
+		return fieldKeyAddr(fa) + "[" + ia.Index.Name() + "]", true
+	}
+	switch x := v.(type) {
+	case *ssa.Field:
+		s9HistoryLeaves(p, x.X, fmt.Sprintf(".%d%s", x.Field, path), out, seen)
+	case *ssa.UnOp:
+		if x.Op != token.MUL {
+			s9HistoryLeaves(p, x.X, "", out, seen)
+			return
+		}
+		if k, ok := histElem(x.X); ok {
+			out[k+path] = true
+			return
+		}
+		switch a := x.X.(type) {
+		case *ssa.FieldAddr:
+			if k, ok := histElem(a.X); ok {
+				out[fmt.Sprintf("%s.%d%s", k, a.Field, path)] = true
+				return
+			}
+			if al, ok := a.X.(*ssa.Alloc); ok {
+				for _, st := range p.storesInto(al) {
+					if st.Addr == ssa.Value(al) {
+						s9HistoryLeaves(p, st.Val, fmt.Sprintf(".%d%s", a.Field, path), out, seen)
+					} else if fa2, ok := st.Addr.(*ssa.FieldAddr); ok && fa2.X == a.X && fa2.Field == a.Field {
+						s9HistoryLeaves(p, st.Val, path, out, seen)
+					}
+				}
+			}
+		case *ssa.Alloc:
+			for _, st := range p.storesInto(a) {
+				if st.Addr == ssa.Value(a) {
+					s9HistoryLeaves(p, st.Val, path, out, seen)
+				}
+			}
+		}
+	case *ssa.BinOp:
+		s9HistoryLeaves(p, x.X, "", out, seen)
+		s9HistoryLeaves(p, x.Y, "", out, seen)
+	case *ssa.Convert:
+		s9HistoryLeaves(p, x.X, "", out, seen)
+	case *ssa.ChangeType:
+		s9HistoryLeaves(p, x.X, path, out, seen)
+	case *ssa.Phi:
+		for _, e := range x.Edges {
+			s9HistoryLeaves(p, e, path, out, seen)
+		}
+	case *ssa.Extract:
+		s9HistoryLeaves(p, x.Tuple, "", out, seen)
+	case *ssa.Call:
+		for _, a := range x.Call.Args {
+			s9HistoryLeaves(p, a, "", out, seen)
+		}
+	}
 }
